@@ -165,7 +165,7 @@ def c12(tier, seed):
              "with get_file on a second reader; (b) archives encoded by the independent implementation whose block stream lacks the end-of-data marker "
              "(all blocks, cut at a block edge, cut inside a block) before a valid footer and under valid outer layers: linear_extract must fail; "
              "distinct = distinct case; non-trivial = at least 2 files or a marker-less archive",
-        musthit=["subset:empty", "subset:one", "subset:all", "reader:after_get_hash", "reader:after_get_file", "reader:after_linear_extract", "held:extract", "held:no_marker_refused", "no_marker:all_blocks", "no_marker:cut_inside_block"],
+        musthit=["subset:empty", "subset:one", "subset:all", "reader:after_get_hash", "reader:after_get_file", "reader:after_linear_extract", "held:extract", "held:no_marker_refused", "held:source_ending_between_two_blocks_refused", "no_marker:all_blocks", "no_marker:cut_inside_block"],
         assumptions=["marker-less archives have at most 64 files: with 254 (mod 256) files the first footer byte equals the marker byte (format limitation); "
                      "cases where the footer bytes, read as typed blocks by a grammar-only reader, lead to a 0xFE type byte are skipped as format coincidences"],
     )
